@@ -58,6 +58,9 @@ var depLocs = []depLoc{
 		w.Objs["F"].Book = map[string]map[string]int64{"a": {"x": 4}}
 		w.Objs["F"].KS = "a"
 	}},
+	{name: "promoted", writers: []string{"F.BI"}, readers: []string{"F.BI"}, init: func(w *ref.World) { w.Objs["F"].BI = 4 }},
+	{name: "intmap", isMap: true, writers: []string{"F.MK[1]", "F.MK[F.K + 1]"}, readers: []string{"F.MK[1]", "F.MK[F.K + 1]"}, init: func(w *ref.World) { w.Objs["F"].MK = map[int64]int64{1: 4, 2: 9}; w.Objs["F"].K = 0 }},
+	{name: "array", writers: []string{"F.A3[0]", "F.A3[F.K]"}, readers: []string{"F.A3[0]", "F.A3[F.K]"}, init: func(w *ref.World) { w.Objs["F"].A3 = [3]int64{4, 1, 2}; w.Objs["F"].K = 0 }},
 	{name: "json", isJSON: true, writers: []string{"J.n", `J["n"]`}, readers: []string{"J.n", `J["n"]`}, init: func(w *ref.World) {
 		w.JSON["J"] = map[string]interface{}{"n": 4.0, "o": map[string]interface{}{"n": 4.0}}
 	}},
